@@ -48,6 +48,10 @@ def gen(rng, tier):
         # shutdown() during the back-off wait, or while the attempt that
         # follows it is in flight
         'shutdown_phase': rng.choice(['backoff', 'backoff', 'attempt']),
+        # what the client object went through before the connection that is
+        # then lost: nothing / a disconnect() while idle / a full
+        # connect-disconnect cycle
+        'history': rng.choice([None, None, 'idle_disconnect', 'cycle']),
         'second_loss': rng.random() < 0.3,
         'lat': rng.choice([0, 1]),
     }
@@ -179,6 +183,24 @@ def _run(case, cfg, w):
         auth = cfg['auth']
         want_auth = cfg['auth']
     url = 'http://s?x=1'
+    if cfg.get('history') == 'idle_disconnect':
+        w.call(c.disconnect)
+        w.settle()
+    elif cfg.get('history') == 'cycle':
+        h0 = w.call(c.connect, url, headers=dict(cfg['headers']), auth=auth,
+                    transports=['websocket'], namespaces=list(cfg['nss']),
+                    wait_timeout=2)
+        w.settle()
+        if h0.exc is None and c.connected:
+            w.call(c.disconnect)
+            w.settle()
+            w.advance(1.0)
+    if cfg.get('history'):
+        # what follows is judged on its own: forget the events of the
+        # history (the digest keeps them)
+        del w.rec.events[:]
+        del w.net.attempts[:]
+        del w.rec.errors[:]
     h = w.call(c.connect, url, headers=dict(cfg['headers']), auth=auth,
                transports=['websocket'], namespaces=list(cfg['nss']),
                wait_timeout=2)
